@@ -44,8 +44,8 @@ def identity : List Row := [
   ⟨"PolarMapping", "rmax", false, false, ["map_logical"]⟩,
   ⟨"Constant", "name", false, false, ["const_dx"]⟩,
   ⟨"Constant", "real", false, false, ["const_dx"]⟩,
-  ⟨"DifferentialForm", "dim", true, true, ["form_hodge"]⟩,
-  ⟨"DifferentialForm", "index", true, true, ["form_hodge"]⟩,
+  ⟨"DifferentialForm", "dim", false, false, ["form_hodge"]⟩,
+  ⟨"DifferentialForm", "index", false, false, ["form_hodge"]⟩,
   ⟨"DifferentialForm", "name", false, false, ["form_hodge"]⟩,
   ⟨"EssentialBC", "face", false, false, ["bc_equation"]⟩,
   ⟨"EssentialBC", "rhs", false, false, ["bc_equation"]⟩
